@@ -9,7 +9,7 @@
 From Coq Require Import ZArith List Bool Arith Lia PrimFloat.
 From QV Require Import Base.Mat Base.Zi C12.ModelFloat C12.ModelTableau C12.ModelExec C12.ModelMeasure
   C12.Pauli C12.ProofsRules C12.ProofsCircuit C12.ProofsFloat C12.ProofsMeasure C12.ProofsMeasure2
-  C12.ProofsMeasure3 C12.ProofsBorn C12.ModelAG04 C12.ProofsAG04 C12.ProofsExec.
+  C12.ProofsMeasure3 C12.ProofsBorn C12.ModelAG04 C12.ProofsAG04 C12.ProofsAccept C12.ProofsExec.
 Import ListNotations.
 Local Open Scope Z_scope.
 
@@ -214,6 +214,42 @@ Theorem controlled_sim_refuted : exists T w, execute_circuit 3 ccz_circuit = Fin
 Proof. exact ProofsExec.controlled_sim_refuted. Qed.
 Print Assumptions controlled_sim_refuted.
 
+(* ================= (3b) what is accepted, and what is executed ================= *)
+Theorem acceptance_characterised : forall half g,
+  passes_acceptance_at half g = true <->
+  fixed_clifford_class (g_cls g) = true
+  \/ (rot_class (g_cls g) = true /\ angle_flag g = true)
+  \/ (crot_class (g_cls g) = true /\ (if half then angle_flag_half g else angle_flag g) = true)
+  \/ (g_cls g = cUnitary /\ g_uflag g = true)
+  \/ g_cls g = cM \/ g_cls g = cPauliNoise.
+Proof. exact ProofsAccept.acceptance_characterised. Qed.
+Print Assumptions acceptance_characterised.
+
+Theorem execute_ignores_controls : forall half n c,
+  execute_circuit_at half n (map bare c) = execute_circuit_at half n c.
+Proof. exact ProofsAccept.execute_ignores_controls. Qed.
+Print Assumptions execute_ignores_controls.
+
+Theorem accepted_gate_cases : forall half g, passes_acceptance_at half g = true ->
+  (exists s, sop_of_gate g = Some s /\ sop_check s = true /\ apply_gate_clifford g = AOp (sop_op s))
+  \/ (args_cover_qubits g = false /\ exists o, apply_gate_clifford g = AOp o)
+  \/ apply_gate_clifford g = ANone \/ apply_gate_clifford g = ASkip \/ apply_gate_clifford g = ACrash.
+Proof. exact ProofsAccept.accepted_gate_cases. Qed.
+Print Assumptions accepted_gate_cases.
+
+Theorem accepted_exec_correct : forall half n c T,
+  execute_circuit_at half n c = Final T ->
+  (forall g, In g c -> g_cls g = cM \/ exists s, sop_of_gate g = Some s) ->
+  exists l, sops_of c = Some l /\ T = exec (map sop_op l) (zero_state n)
+            /\ Forall (fun o => sop_check o = true) l.
+Proof. exact ProofsAccept.accepted_exec_correct. Qed.
+Print Assumptions accepted_exec_correct.
+
+Example accepted_gate_cases_nonvacuous :
+  passes_acceptance_at false (mkGate cZ [2%nat] [0%nat; 1%nat] [2%nat] None None false) = true
+  /\ passes_acceptance_at false (gH 0) = true.
+Proof. split; reflexivity. Qed.
+
 (* ================= (4) measurement =================
    old_* : history. The engine BEFORE the repairs e7dd78371 / 5cb9f09ff (model M_old);
    kept so that a regression to that code is recognised. *)
@@ -394,5 +430,5 @@ Proof. exact ProofsAG04.ag04_ok. Qed.
 Print Assumptions ag04_ok.
 
 Example ag04_ok_nonvacuous :
-  Inv 3 witness_T /\ trow witness_T (2 * 3) = zero_row 3 /\ length (ag04 3 witness_T) = 6%nat.
+  Inv 3 witness_T /\ trow witness_T (2 * 3) = zero_row 3 /\ length (ag04 3 witness_T) = 19%nat.
 Proof. split; [apply ProofsMeasure3.Inv_b_sound; vm_compute; reflexivity|]. split; vm_compute; reflexivity. Qed.
